@@ -162,6 +162,34 @@ def coq(rep, cfg):
     rep.assumptions = ax
     rep.discharged = ok
     log(f"[{rep.prop}] coq: {ok}/{len(thms)} theorems re-checked, axioms ok ({time.time()-t0:.1f}s)")
+    if rep.tier == "thorough":
+        coqchk(rep, cfg, sorted({m for m, _ in thms}))
+
+
+def coqchk(rep, cfg, mods):
+    """thorough tier: the compiled property files and everything they depend on are re-checked by the
+    independent checker; its context summary must report no type-in-type, no unsafe fixpoint, no assumed
+    positivity, and no axiom outside the allow-list"""
+    t0 = time.time()
+    rc, out = sh(["timeout", "3000", "coqchk", "-silent", "-o"] + QFLAGS + ["SSL." + m for m in mods], cwd=COQ, timeout=3100)
+    if rc != 0 or "CONTEXT SUMMARY" not in out:
+        rep.proof_errors.append({"kind": "coqchk", "output": out[-3000:]})
+        return
+    summary = out[out.index("CONTEXT SUMMARY"):]
+    sections = re.split(r"\n\* ", summary)
+    allowed = {a.split(".")[-1] for a in cfg.get("axioms_allowed", [])}
+    for sec in sections[1:]:
+        head, _, body = sec.partition(":")
+        items = [x.strip() for x in body.strip().split("\n") if x.strip() and x.strip() != "<none>"]
+        if head.startswith("Axioms"):
+            extra = [x for x in items if x.split(":")[0].strip().split(".")[-1] not in allowed]
+            if extra:
+                rep.proof_errors.append({"kind": "coqchk-axioms", "axioms": extra})
+        elif head.startswith(("Constants/Inductives relying on", "Inductives whose positivity")):
+            if items:
+                rep.proof_errors.append({"kind": "coqchk-unsafe", "what": head, "items": items[:10]})
+    rep.checker_cmd += " + coqchk -silent -o (thorough tier)"
+    log(f"[{rep.prop}] coqchk: context summary clean ({time.time()-t0:.1f}s)")
 
 
 def binaries(rep):
